@@ -70,6 +70,8 @@ StreamVerdict(e) ==
      ELSE "ok"
 \* end to end over a pipe: e.items are recognised keypresses (letters, table sequences, characters) none of which is
 \* a proper prefix of a longer recognised sequence; all of them had arrived before the first request; bytes naming
+\* (or: handed over one keypress per piece with a request after each, so that a key which is a proper prefix of longer
+\* sequences ends what has arrived and is a keypress)
 PipeVerdict(e) ==
   IF e.exc # "" THEN "NeverFailsOnValidInput"
   ELSE IF FlattenSeq(e.keys) # FlattenSeq(e.items) THEN "LosslessBytes"
